@@ -21,7 +21,7 @@ from sim import lifetimes, observe, worldgen
 from . import common
 
 HISTORY_OPS = ['copy', 'copy_deep', 'copy_module', 'pickle', 'hold_refs', 'hold_refs', 'drop_refs', 'gc', 'touch', 'load', 'key', 'key', 'memory_layout', 'memory_layout',
-               'print_options', 'dtype_spelling', 'other_byte_order']
+               'print_options', 'dtype_spelling', 'other_byte_order', 'logging_debug', 'warnings_error']
 CREATES_HANDLE = ('copy', 'copy_deep', 'copy_module', 'pickle', 'dtype_spelling', 'other_byte_order')
 NONGEOM_EDITS = ['add_var', 'drop_var', 'alter_var', 'slice_time', 'global_attr', 'data_var_attr']
 GEOM_EDITS = ['value', 'dtype_same_bytes', 'shape_same_bytes', 'rename', 'attr_add', 'attr_change', 'attr_remove', 'convention', 'attr_array']
@@ -320,9 +320,17 @@ def _key_lifetime(ctx, plan, scratch):
 
     canonical_key = _canonical_key
 
+    env_flags = {}
+
     def record_key(h):
         try:
-            key = make_cache_key(handles[h]['ds'])
+            if env_flags.get('warnings_error'):
+                import warnings
+                with warnings.catch_warnings():
+                    warnings.simplefilter('error')
+                    key = make_cache_key(handles[h]['ds'])
+            else:
+                key = make_cache_key(handles[h]['ds'])
             key = key + '|' + canonical_key(handles[h]['ds'])
             # the log records *which* keys are equal, not their bytes (the bytes legitimately depend on the emsarray version)
             kid = key_ids.setdefault(key, f'K{len(key_ids)}')
@@ -436,6 +444,17 @@ def _key_lifetime(ctx, plan, scratch):
                 record_key(nh)
                 record_key(nh)
                 ctx.emit('probe', name='geometry_in_non_native_byte_order')
+            elif kind == 'logging_debug':
+                # process-wide configuration: verbose logging switched on for emsarray (a handler that swallows the text)
+                import io
+                import logging
+                lg = logging.getLogger('emsarray')
+                lg.setLevel(logging.DEBUG if arg % 3 else logging.INFO)
+                if not lg.handlers:
+                    lg.addHandler(logging.StreamHandler(io.StringIO()))
+            elif kind == 'warnings_error':
+                # from now on keys are computed the way `python -W error` would: any warning is an exception
+                env_flags['warnings_error'] = True
             elif kind == 'print_options':
                 # process-wide presentation state: how numpy *prints* arrays has nothing to do with the geometry
                 numpy.set_printoptions(precision=1 + arg % 5, threshold=3 + arg % 4, edgeitems=1, suppress=bool(arg % 2))
